@@ -18,7 +18,7 @@ import concurrent.futures as cf
 import vlib
 
 PID = 'C18'
-ALL_BODIES = ['ENCA', 'ENCB', 'ENCC', 'ENCD', 'ENCM', 'DECA', 'DECB', 'DECF', 'DECH', 'DECL', 'DECR', 'VFA', 'VFB', 'VFF', 'VFC', 'VFL', 'VFR']
+ALL_BODIES = ['ENCA', 'ENCB', 'ENCC', 'ENCD', 'ENCM', 'ENCT', 'ENCS', 'DECA', 'DECB', 'DECF', 'DECH', 'DECL', 'DECR', 'VFA', 'VFB', 'VFF', 'VFC', 'VFL', 'VFR']
 CORE = ['ENCA', 'ENCB', 'DECA', 'DECB', 'DECF', 'VFA', 'VFB']
 BODY_DOC = {
     'ENCA': 'encoder stereo 44.1k VBR q0.4, 3x1024 samples', 'ENCB': 'encoder mono 8k, setup_managed+ctl+setup_init (bitrate managed)',
@@ -29,6 +29,8 @@ BODY_DOC = {
     'VFB': 'vorbisfile on s2: ov_read_float, pcm_seek, halfrate, pcm_seek_lap, ov_read, clear',
     'VFF': 'vorbisfile on the floor-0 stream (raw_seek)', 'VFC': 'vorbisfile on the 2-link chain s1+s2',
     'ENCM': 'encoder stereo 44.1k managed with a hard MINIMUM (96 kbit/s, 8000-bit reservoir via RATEMANAGE2_SET) on a tone followed by near silence (1e-5 sine): packets are zero-padded up to the floor',
+    'ENCT': 'very short encodes: {1,2} channels x total input {0,1,7,20,32,33,100} samples x {one wrote() call, 3-sample pieces}, then end of stream (28 encoders, one g1 step each; <=32 samples leaves the pcm lead-in to the end-of-stream LPC extrapolation)',
+    'ENCS': 'subset of ENCT used as a concurrent body: 1/2 channels x (7 samples in one call, 32 samples in 3-sample pieces)',
     'DECL': 'packet decoder on coupled stereo with a digitally silent LEFT channel (unused floor on one side of a coupled pair)',
     'DECR': 'packet decoder on coupled stereo with a digitally silent RIGHT channel, with synthesis_restart',
     'VFL': 'vorbisfile (ov_read_float) on the left-silent stream', 'VFR': 'vorbisfile (ov_read, pcm_seek_lap) on the right-silent stream',
@@ -157,7 +159,7 @@ def run_valgrind(exe, st, body, timeout=900):
 # ------------------------------------------------------------------------------------------------ main
 def plan_jobs(tier):
     pairs = [list(c) for c in itertools.combinations_with_replacement(CORE, 2)]
-    extra_pairs = [['ENCC', 'ENCA'], ['ENCD', 'ENCB'], ['DECH', 'DECB'], ['VFF', 'DECF'], ['VFC', 'VFA'], ['ENCC', 'VFC'], ['DECL', 'DECR'], ['VFL', 'VFR'], ['DECL', 'VFL'], ['ENCM', 'ENCD']]
+    extra_pairs = [['ENCC', 'ENCA'], ['ENCD', 'ENCB'], ['DECH', 'DECB'], ['VFF', 'DECF'], ['VFC', 'VFA'], ['ENCC', 'VFC'], ['DECL', 'DECR'], ['VFL', 'VFR'], ['DECL', 'VFL'], ['ENCM', 'ENCD'], ['ENCS', 'ENCS'], ['ENCS', 'ENCA'], ['ENCS', 'DECB']]
     triples = [['ENCA', 'DECA', 'VFB'], ['ENCB', 'DECF', 'VFA'], ['DECA', 'DECA', 'DECB']]
     jobs = []
     if tier == 'quick':
@@ -224,7 +226,7 @@ def _run(chk, tier, t0, deadline, exe, texe, st):
     # (threads, repetitions per process, bodies, processes): every process start is a cold library (lazily built tables!)
     reps = 10 if tier == 'quick' else 15
     procs = 3 if tier == 'quick' else 5
-    tsan_base = [(16, reps, ALL_BODIES, procs), (8, reps, ['ENCA'], procs), (8, reps, ['DECF', 'VFF', 'DECA', 'VFA', 'DECL', 'VFR'], procs), (12, reps, ['ENCB', 'ENCD', 'ENCM', 'DECB', 'DECH', 'VFB', 'VFC'], procs)]
+    tsan_base = [(16, reps, ALL_BODIES, procs), (8, reps, ['ENCA', 'ENCS'], procs), (8, reps, ['DECF', 'VFF', 'DECA', 'VFA', 'DECL', 'VFR'], procs), (12, reps, ['ENCB', 'ENCD', 'ENCM', 'DECB', 'DECH', 'VFB', 'VFC'], procs)]
     if tier == 'thorough':
         tsan_base += [(16, reps, ['ENCA', 'ENCC', 'DECB', 'VFB'], procs), (2, 40, ['ENCA', 'DECB'], procs), (2, 40, ['DECA', 'DECA'], procs), (3, 40, ['VFA', 'DECA', 'ENCB'], procs)]
     tsan_cfgs = [(n, r, b) for n, r, b, k in tsan_base for _ in range(k)]
@@ -262,7 +264,7 @@ def _run(chk, tier, t0, deadline, exe, texe, st):
             else:
                 chk.violation(f'fill_died:{b}', f'solo body {b} under fill 0x{int(p):02x}: {r[:300]}', {'kind': 'fill', 'body': b, 'pattern': int(p)})
     cov['fill'] = {'patterns': ['0x%02x' % p for p in FILLS], 'bodies': len(ALL_BODIES), 'identical_digests': fill_ok, 'of': len(ALL_BODIES) * len(FILLS)}
-    cov['bodies'] = {b: {'what': BODY_DOC[b], 'g1_steps': int(d['steps']), 'api_calls': int(d['api']), 'allocator_calls_inside_api': int(d['allocs']), 'nonzero_outputs': int(d['nonzero']), 'padded_packets': int(d.get('padded', 0))} for b, d in solo.items()}
+    cov['bodies'] = {b: {'what': BODY_DOC[b], 'g1_steps': int(d['steps']), 'api_calls': int(d['api']), 'allocator_calls_inside_api': int(d['allocs']), 'nonzero_outputs': int(d['nonzero']), 'padded_packets': int(d.get('padded', 0)), 'tiny_encode_packets': int(d.get('tinypk', 0))} for b, d in solo.items()}
 
     # ---------------- scheduler exploration
     jobs = plan_jobs(tier)
@@ -485,6 +487,7 @@ def _run(chk, tier, t0, deadline, exe, texe, st):
         chk.guard(not bad and len(expl) >= 1, f'every system explored with >=1 preemption showed >=2 distinct interleavings differing in order and threads preempted mid-body ({len(expl)} systems){" FAILED: " + ",".join(bad) if bad else ""}')
         chk.guard(all(int(d['nonzero']) > 0 for d in solo.values()) and len(solo) == len(ALL_BODIES), 'every body produced non-zero output (DECF/VFF: the floor-0 curve was rendered, so floor0_map_lazy_init ran)')
         chk.guard(int(solo.get('ENCM', {}).get('padded', 0)) > 0, 'ENCM really emitted packets padded up to the hard minimum bitrate (%s packets end in >=16 zero bytes)' % solo.get('ENCM', {}).get('padded'))
+        chk.guard(int(solo.get('ENCT', {}).get('tinypk', 0)) >= 26 and solo.get('ENCT', {}).get('tinyempty') == '0' and solo.get('ENCT', {}).get('steps') == '28', 'ENCT: all 28 very short encodes ran and every one with input produced audio packets (%s packets)' % solo.get('ENCT', {}).get('tinypk'))
         chk.guard(tsan_self, 'TSan engine reports a seeded race in the harness (self-test)')
         done_t = [t for t in tsan_info if t['rc'] is not None]
         chk.guard(len(done_t) >= 1 and all(t['max_concurrent'] >= 2 for t in done_t), f'every completed TSan pass had >=2 bodies running concurrently ({len(done_t)} of {len(tsan_cfgs)} passes completed)')
